@@ -19,13 +19,32 @@ import vlib
 
 MAX_LINES = 120          # events per case
 MAX_LINE_LEN = 20000     # no megabyte values in the corpus
-CAP = {"seq": 60, "conn": 14}
+CAP = {"seq": 80, "conn": 18}
 MAX_IDLE = 1             # an idle event costs the receive timeout in wall time
+
+
+def existing(seen, out):
+    """the cases already in the corpus stay (they come first)"""
+    cdir = os.path.join(vlib.ROOT, "corpus")
+    try:
+        index = json.load(open(os.path.join(cdir, "INDEX.json")))
+    except (OSError, ValueError):
+        index = {}
+    for f in sorted(glob.glob(os.path.join(cdir, "*.trace"))):
+        prop, prof = os.path.basename(f).split(".")[:2]
+        for cid, lines in vlib.split_cases(open(f).read()):
+            meta = index.get(cid + "@" + prop, {})
+            h = hashlib.sha1("\n".join(lines[1:]).encode()).hexdigest()[:10]
+            if (prop, prof, h) in seen:
+                continue
+            seen.add((prop, prof, h))
+            out.setdefault((prop, prof), []).append((0, h, lines, meta.get("from", "corpus"), meta.get("replay", "")))
 
 
 def candidates(dirs):
     seen = set()
     out = {}
+    existing(seen, out)
     for d in dirs:
         for f in sorted(glob.glob(os.path.join(d, "*.json"))):
             try:
